@@ -1117,6 +1117,16 @@ impl PipeIndex for Expr {
 
 /// One random program for (seed, index)
 pub fn random_program(r: &mut Rng, profile: Profile) -> (Vec<Stmt>, Option<&'static str>) {
+    // one program in six comes from the structure-first generator (wild.rs): every consumer of generated programs
+    // (differential, metamorphic, bytecode, heap, session and front-end checks) sees its shapes as well
+    if r.below(6) == 0 {
+        return (crate::wild::wild_program(r), None);
+    }
+    typed_program(r, profile)
+}
+
+/// a type-directed program of the given profile
+pub fn typed_program(r: &mut Rng, profile: Profile) -> (Vec<Stmt>, Option<&'static str>) {
     let budget = size_class(r);
     let with_fault = r.below(100) < 15;
     let mut g = Gen::new(r, profile, budget, with_fault);
